@@ -222,14 +222,21 @@ def same_val(impl, model):
 
 # ----------------------------------------------------------------------------- observe + compare
 
+_DN = None
+_DN_CALLS = 0
+
 def observe(data, est, **params):
     """Run the real discover_network under instrumentation. Returns a dict of observations
     (or {'error': ExceptionType} when it raises)."""
-    from common import EntryPoints
-    discover_network = EntryPoints("discover_network", "causationentropy.core.discovery", "causationentropy.core", "causationentropy")   # every public path, in turn
+    from common import EntryPoints, call_form
+    global _DN, _DN_CALLS
+    if _DN is None:
+        _DN = EntryPoints("discover_network", "causationentropy.core.discovery", "causationentropy.core", "causationentropy")   # every public path, in turn
+    _DN_CALLS += 1
     with instrumented(est) as obs, quiet():
         try:
-            G = discover_network(data, **params)
+            # ... and every documented call form, in turn (all keywords / leading arguments positional)
+            G = call_form(_DN, "discover_network", _DN_CALLS // 3, data=data, **params)
         except Exception as e:  # noqa
             return {"error": type(e).__name__, "obs": obs}
     perms = [p for (k, p) in obs.np.log if k == "permutation"]
